@@ -32,6 +32,7 @@ structure Cfg where
   nickCollide : NickCollide := .none
   disableTracking : Bool := false
   clientName : Bytes := []             -- Config.Name (FINGER reply)
+  globalFormat : Bool := false
 
 /-- What a handler does to the outside world. -/
 inductive Out where
